@@ -53,6 +53,7 @@ class Collector:
         self.shape_rules: set = set()  # rules decided by the shape of the code (see rule())
         self.not_decided: list[str] = []
         self.assumptions: list[str] = []
+        self.dominance_seen: dict = {}  # "rule|construct|key" -> the anchored statement is on every path to a normal return
 
     def rule(self, rid: str, text: str, floor: int = 1, ceiling: int = 0,
              exhaustive: bool = False, shape: bool = False) -> None:
@@ -179,6 +180,7 @@ class Collector:
             loc = d.loc(node) if node is not None else d.loc()
             if v == match.SAME:
                 out.append(self.ok(rule, construct, loc, what, norm_src(node)[:100], stmt=key))
+                self._dominance(rule, construct, d, stmts, node, what, key)
             elif v == match.LEAF:
                 out.append(self.add(rule, construct, loc, what, VIOLATION,
                                     f"`{norm_src(node)[:120]}` differs from the form the definition requires: {match.describe(diffs)}",
@@ -186,6 +188,24 @@ class Collector:
             else:
                 out.append(self.unresolved(rule, construct, loc, what, "no statement of a recognised form found", stmt=key))
         return out
+
+    # ---- must-pass-through, against the reference taken on the confirmed tree --------------------------------
+    def _dominance(self, rule, construct, d, stmts, node, what, key):
+        """An anchored statement that every normal path of its function passed through when the instances were
+        confirmed (sa/reference/dominance.json) must still be on every path to a normal return: a new early return,
+        a new branch around it, or a fast path that skips it is a shape the rule cannot vouch for (UNRESOLVED)."""
+        if not isinstance(node, ast.stmt):
+            return
+        dom = _dominates_exit(d.node, node)
+        if dom is None:
+            return
+        rec_key = f"{rule}|{construct}|{key}"
+        self.dominance_seen[rec_key] = dom
+        ref = _dominance_reference().get(self.prop, {})
+        if ref.get(rec_key) is True and not dom:
+            self.unresolved(rule, construct, d.loc(node), what + " -- on every path to a normal return",
+                            f"`{norm_src(node)[:70]}` was on every path to a normal return when this instance was confirmed; now a path reaches a "
+                            f"return without passing through it (a new early return, branch or fast path)", stmt=f"dom:{key}")
 
     def guard(self, fn, *args, **kw):
         """Run one part of a check; a vanished anchor inside it becomes an UNRESOLVED instance
@@ -205,6 +225,54 @@ class Collector:
         if cond:
             return self.ok(rule, construct, loc, what, detail_ok, **kw)
         return self.bad(rule, construct, loc, what, detail_bad, **kw)
+
+
+# ----------------------------------------------------------------- dominance reference
+
+_DOM_REF = None
+
+
+def _dominance_reference() -> dict:
+    global _DOM_REF
+    if _DOM_REF is None:
+        p = os.path.join(VERIF, "sa", "reference", "dominance.json")
+        try:
+            with open(p, encoding="utf-8") as f:
+                _DOM_REF = json.load(f)
+        except FileNotFoundError:
+            _DOM_REF = {}
+    return _DOM_REF
+
+
+def _dominates_exit(fn_node: ast.AST, stmt: ast.AST):
+    """Is `stmt` on every path from the entry of its (innermost enclosing) function to a normal return?
+    None when the statement is not found in a function body."""
+    from .cfg import CFG
+    # innermost function containing the statement
+    owner = None
+    for f in ast.walk(fn_node):
+        if isinstance(f, (ast.FunctionDef, ast.AsyncFunctionDef)) and any(x is stmt for x in ast.walk(f)):
+            owner = f  # ast.walk is breadth-first: the last hit is the innermost
+    if owner is None:
+        return None
+    try:
+        g = CFG(owner.body)
+    except Exception:  # noqa: BLE001  (a construct the CFG does not model: no reference fact)
+        return None
+    target = g.stmt_node.get(id(stmt))
+    if target is None:
+        return None
+    seen, todo = {g.entry}, [g.entry]
+    while todo:
+        n = todo.pop()
+        if n is g.exit:
+            return False
+        for m, l in g.succ[n]:
+            if m is target or m in seen or l == "exc" or m is g.raise_exit:
+                continue
+            seen.add(m)
+            todo.append(m)
+    return True
 
 
 # ----------------------------------------------------------------- findings
